@@ -132,7 +132,7 @@ def check_C18(tier, seed):
                 if line.startswith('"OPS '):
                     seqs.append(json.loads(json.loads(line)[4:]))
     col_scripts, errors = table_scripts()
-    nseq = 500 if tier == "quick" else len(seqs)
+    nseq = 500 if tier == "quick" else 4000   # (all of them gave 190 MB traces per shard and a 23 GB validator)
     lines_by_schema = {}
     for s in vlib.V2:
         r = random.Random(seed * 17 + vlib.ALL.index(s))
@@ -151,8 +151,9 @@ def check_C18(tier, seed):
         # split on reset boundaries into 3 shards per schema
         lines = lines_by_schema[s]
         starts = [i for i, x in enumerate(lines) if x.startswith('{"op": "reset"')]
-        cuts = [starts[(len(starts) * k) // 3] for k in range(3)] + [len(lines)]
-        for k in range(3):
+        nsh = 3 if tier == "quick" else 8
+        cuts = [starts[(len(starts) * k) // nsh] for k in range(nsh)] + [len(lines)]
+        for k in range(nsh):
             p = os.path.join(wd, "tab_%s_%d.script.ndjson" % (s, k))
             o = os.path.join(wd, "tab_%s_%d.trace.ndjson" % (s, k))
             with open(p, "w") as fh:
